@@ -25,6 +25,7 @@ import (
 	"strings"
 	"syscall"
 
+	"github.com/ProtonMail/go-crypto/openpgp"
 	"github.com/rs/zerolog"
 	"github.com/rs/zerolog/log"
 
@@ -152,7 +153,7 @@ func runEntry(entry, sigtype, path, name, content, outPath, scratch, query strin
 		return o
 	}
 	switch entry {
-	case "verify", "issigned", "transform", "remote":
+	case "verify", "verifykey", "issigned", "transform", "remote":
 		f, err := os.Open(path)
 		if err != nil {
 			return fail(err)
@@ -164,8 +165,21 @@ func runEntry(entry, sigtype, path, name, content, outPath, scratch, query strin
 			return fail(err)
 		}
 		switch entry {
-		case "verify":
+		case "verify", "verifykey":
 			opts := trusted()
+			if entry == "verifykey" {
+				// the keyring is the (armored) public key in `content`: signatures made by a throw-away key of the generator
+				kf, err := os.Open(content)
+				if err != nil {
+					return fail(err)
+				}
+				el, err := openpgp.ReadArmoredKeyRing(kf)
+				kf.Close()
+				if err != nil {
+					return fail(err)
+				}
+				opts.TrustedPgp, content = el, ""
+			}
 			opts.FileName, opts.Compression, opts.Content = name, comp, content
 			if mod.VerifyStream != nil {
 				r, err := magic.Decompress(f, comp)
